@@ -43,7 +43,7 @@
 name: parse.bool.pp0rm0
 tier: B
 define: TOK_BOOL, VB_ARGC=3, VB_PRE=0, VB_RM=0, CLS_WANT=0
-src: options.c, strings.c
+src: options.c
 bound: argc <= 3 (all 110 vectors of 1..2 words over the 10-token family BOOL), 9-entry table, setting pre-parse=0 remove-args=0, class 0; boolean/integer initial values symbolic
 unwind: 102
 objbits: 16
@@ -55,7 +55,7 @@ mem: 12
 name: parse.bool.pp0rm1
 tier: B
 define: TOK_BOOL, VB_ARGC=3, VB_PRE=0, VB_RM=1, CLS_WANT=0
-src: options.c, strings.c
+src: options.c
 bound: argc <= 3 (all 110 vectors of 1..2 words over the 10-token family BOOL), 9-entry table, setting pre-parse=0 remove-args=1, class 0; boolean/integer initial values symbolic
 unwind: 102
 objbits: 16
@@ -67,7 +67,7 @@ mem: 12
 name: parse.bool.pp1rm0
 tier: B
 define: TOK_BOOL, VB_ARGC=3, VB_PRE=1, VB_RM=0, CLS_WANT=0
-src: options.c, strings.c
+src: options.c
 bound: argc <= 3 (all 110 vectors of 1..2 words over the 10-token family BOOL), 9-entry table, setting pre-parse=1 remove-args=0, class 0; boolean/integer initial values symbolic
 unwind: 102
 objbits: 16
@@ -79,7 +79,7 @@ mem: 12
 name: parse.bool.pp1rm1
 tier: B
 define: TOK_BOOL, VB_ARGC=3, VB_PRE=1, VB_RM=1, CLS_WANT=0
-src: options.c, strings.c
+src: options.c
 bound: argc <= 3 (all 110 vectors of 1..2 words over the 10-token family BOOL), 9-entry table, setting pre-parse=1 remove-args=1, class 0; boolean/integer initial values symbolic
 unwind: 102
 objbits: 16
@@ -91,7 +91,7 @@ mem: 12
 name: parse.value.pp0rm0
 tier: B
 define: TOK_VALUE, VB_ARGC=3, VB_PRE=0, VB_RM=0, CLS_WANT=0
-src: options.c, strings.c
+src: options.c
 bound: argc <= 3 (all 110 vectors of 1..2 words over the 10-token family VALUE), 9-entry table, setting pre-parse=0 remove-args=0, class 0; boolean/integer initial values symbolic
 unwind: 102
 objbits: 16
@@ -103,7 +103,7 @@ mem: 12
 name: parse.value.pp0rm1
 tier: B
 define: TOK_VALUE, VB_ARGC=3, VB_PRE=0, VB_RM=1, CLS_WANT=0
-src: options.c, strings.c
+src: options.c
 bound: argc <= 3 (all 110 vectors of 1..2 words over the 10-token family VALUE), 9-entry table, setting pre-parse=0 remove-args=1, class 0; boolean/integer initial values symbolic
 unwind: 102
 objbits: 16
@@ -115,7 +115,7 @@ mem: 12
 name: parse.value.pp1rm0
 tier: B
 define: TOK_VALUE, VB_ARGC=3, VB_PRE=1, VB_RM=0, CLS_WANT=0
-src: options.c, strings.c
+src: options.c
 bound: argc <= 3 (all 110 vectors of 1..2 words over the 10-token family VALUE), 9-entry table, setting pre-parse=1 remove-args=0, class 0; boolean/integer initial values symbolic
 unwind: 102
 objbits: 16
@@ -127,7 +127,7 @@ mem: 12
 name: parse.value.pp1rm1
 tier: B
 define: TOK_VALUE, VB_ARGC=3, VB_PRE=1, VB_RM=1, CLS_WANT=0
-src: options.c, strings.c
+src: options.c
 bound: argc <= 3 (all 110 vectors of 1..2 words over the 10-token family VALUE), 9-entry table, setting pre-parse=1 remove-args=1, class 0; boolean/integer initial values symbolic
 unwind: 102
 objbits: 16
@@ -139,7 +139,7 @@ mem: 12
 name: parse.list.pp0rm0
 tier: B
 define: TOK_LIST, VB_ARGC=3, VB_PRE=0, VB_RM=0, CLS_WANT=0
-src: options.c, strings.c
+src: options.c
 bound: argc <= 3 (all 110 vectors of 1..2 words over the 10-token family LIST), 9-entry table, setting pre-parse=0 remove-args=0, class 0; boolean/integer initial values symbolic
 unwind: 102
 objbits: 16
@@ -151,7 +151,7 @@ mem: 12
 name: parse.list.pp0rm1
 tier: B
 define: TOK_LIST, VB_ARGC=3, VB_PRE=0, VB_RM=1, CLS_WANT=0
-src: options.c, strings.c
+src: options.c
 bound: argc <= 3 (all 110 vectors of 1..2 words over the 10-token family LIST), 9-entry table, setting pre-parse=0 remove-args=1, class 0; boolean/integer initial values symbolic
 unwind: 102
 objbits: 16
@@ -163,7 +163,7 @@ mem: 12
 name: parse.list.pp1rm0
 tier: B
 define: TOK_LIST, VB_ARGC=3, VB_PRE=1, VB_RM=0, CLS_WANT=0
-src: options.c, strings.c
+src: options.c
 bound: argc <= 3 (all 110 vectors of 1..2 words over the 10-token family LIST), 9-entry table, setting pre-parse=1 remove-args=0, class 0; boolean/integer initial values symbolic
 unwind: 102
 objbits: 16
@@ -175,7 +175,7 @@ mem: 12
 name: parse.list.pp1rm1
 tier: B
 define: TOK_LIST, VB_ARGC=3, VB_PRE=1, VB_RM=1, CLS_WANT=0
-src: options.c, strings.c
+src: options.c
 bound: argc <= 3 (all 110 vectors of 1..2 words over the 10-token family LIST), 9-entry table, setting pre-parse=1 remove-args=1, class 0; boolean/integer initial values symbolic
 unwind: 102
 objbits: 16
@@ -187,7 +187,7 @@ mem: 12
 name: parse.unknown.pp0rm0
 tier: B
 define: TOK_UNK, VB_ARGC=3, VB_PRE=0, VB_RM=0, CLS_WANT=CLS_UNKNOWN
-src: options.c, strings.c
+src: options.c
 bound: argc <= 3 (all 110 vectors of 1..2 words over the 10-token family UNK), 9-entry table, setting pre-parse=0 remove-args=0, class CLS_UNKNOWN; boolean/integer initial values symbolic
 unwind: 102
 objbits: 16
@@ -199,7 +199,7 @@ mem: 12
 name: parse.unknown.pp0rm1
 tier: B
 define: TOK_UNK, VB_ARGC=3, VB_PRE=0, VB_RM=1, CLS_WANT=CLS_UNKNOWN
-src: options.c, strings.c
+src: options.c
 bound: argc <= 3 (all 110 vectors of 1..2 words over the 10-token family UNK), 9-entry table, setting pre-parse=0 remove-args=1, class CLS_UNKNOWN; boolean/integer initial values symbolic
 unwind: 102
 objbits: 16
@@ -211,7 +211,7 @@ mem: 12
 name: parse.unknown.pp1rm0
 tier: B
 define: TOK_UNK, VB_ARGC=3, VB_PRE=1, VB_RM=0, CLS_WANT=CLS_UNKNOWN
-src: options.c, strings.c
+src: options.c
 bound: argc <= 3 (all 110 vectors of 1..2 words over the 10-token family UNK), 9-entry table, setting pre-parse=1 remove-args=0, class CLS_UNKNOWN; boolean/integer initial values symbolic
 unwind: 102
 objbits: 16
@@ -223,7 +223,7 @@ mem: 12
 name: parse.unknown.pp1rm1
 tier: B
 define: TOK_UNK, VB_ARGC=3, VB_PRE=1, VB_RM=1, CLS_WANT=CLS_UNKNOWN
-src: options.c, strings.c
+src: options.c
 bound: argc <= 3 (all 110 vectors of 1..2 words over the 10-token family UNK), 9-entry table, setting pre-parse=1 remove-args=1, class CLS_UNKNOWN; boolean/integer initial values symbolic
 unwind: 102
 objbits: 16
@@ -235,7 +235,7 @@ mem: 12
 name: parse.missing.pp0rm1
 tier: B
 define: TOK_MISS, VB_ARGC=3, VB_PRE=0, VB_RM=1, CLS_WANT=CLS_MISSING
-src: options.c, strings.c
+src: options.c
 bound: argc <= 3 (all 42 vectors of 1..2 words over the 6-token family MISS), 9-entry table, setting pre-parse=0 remove-args=1, class CLS_MISSING; boolean/integer initial values symbolic
 unwind: 300
 objbits: 16
@@ -247,7 +247,7 @@ mem: 12
 name: parse.shortbool_val.pp0rm1
 tier: B
 define: TOK_SBV, VB_ARGC=3, VB_PRE=0, VB_RM=1, CLS_WANT=CLS_SHORTBOOL_VAL
-src: options.c, strings.c
+src: options.c
 bound: argc <= 3 (all 42 vectors of 1..2 words over the 6-token family SBV), 9-entry table, setting pre-parse=0 remove-args=1, class CLS_SHORTBOOL_VAL; boolean/integer initial values symbolic
 unwind: 38
 objbits: 16
@@ -259,7 +259,7 @@ mem: 12
 name: parse.args_attached.pp0rm0
 tier: B
 define: TOK_ATT, VB_ARGC=3, VB_PRE=0, VB_RM=0, CLS_WANT=CLS_ARGS_ATTACHED
-src: options.c, strings.c
+src: options.c
 bound: argc <= 3 (all 20 vectors of 1..2 words over the 4-token family ATT), 9-entry table, setting pre-parse=0 remove-args=0, class CLS_ARGS_ATTACHED; boolean/integer initial values symbolic
 unwind: 18
 objbits: 16
@@ -271,7 +271,7 @@ mem: 12
 name: parse.args_eq_empty.pp0rm1
 tier: B
 define: TOK_EQE, VB_ARGC=3, VB_PRE=0, VB_RM=1, CLS_WANT=CLS_ARGS_EQ_EMPTY
-src: options.c, strings.c
+src: options.c
 bound: argc <= 3 (all 12 vectors of 1..2 words over the 3-token family EQE), 9-entry table, setting pre-parse=0 remove-args=1, class CLS_ARGS_EQ_EMPTY; boolean/integer initial values symbolic
 unwind: 11
 objbits: 16
@@ -283,7 +283,7 @@ mem: 12
 name: parse.pp_list.pp1rm1
 tier: B
 define: TOK_PPL, VB_ARGC=3, VB_PRE=1, VB_RM=1, CLS_WANT=CLS_PP_LIST
-src: options.c, strings.c
+src: options.c
 bound: argc <= 3 (all 30 vectors of 1..2 words over the 5-token family PPL), 9-entry table, setting pre-parse=1 remove-args=1, class CLS_PP_LIST; boolean/integer initial values symbolic
 unwind: 27
 objbits: 16
@@ -295,7 +295,7 @@ mem: 12
 name: parse.pp_list.pp0rm1
 tier: B
 define: TOK_PPL, VB_ARGC=3, VB_PRE=0, VB_RM=1, CLS_WANT=CLS_PP_LIST
-src: options.c, strings.c
+src: options.c
 bound: argc <= 3 (all 30 vectors of 1..2 words over the 5-token family PPL), 9-entry table, setting pre-parse=0 remove-args=1, class CLS_PP_LIST; boolean/integer initial values symbolic
 unwind: 27
 objbits: 16
@@ -307,7 +307,7 @@ mem: 12
 name: parse4.bool.pp0rm0
 tier: B
 define: TOK_BOOL, VB_ARGC=4, VB_PRE=0, VB_RM=0, CLS_WANT=0
-src: options.c, strings.c
+src: options.c
 bound: argc <= 4 (all 1110 vectors of 1..3 words over the 10-token family BOOL), 9-entry table, setting pre-parse=0 remove-args=0, class 0; boolean/integer initial values symbolic
 unwind: 1002
 objbits: 16
@@ -320,7 +320,7 @@ quick: no
 name: parse4.bool.pp0rm1
 tier: B
 define: TOK_BOOL, VB_ARGC=4, VB_PRE=0, VB_RM=1, CLS_WANT=0
-src: options.c, strings.c
+src: options.c
 bound: argc <= 4 (all 1110 vectors of 1..3 words over the 10-token family BOOL), 9-entry table, setting pre-parse=0 remove-args=1, class 0; boolean/integer initial values symbolic
 unwind: 1002
 objbits: 16
@@ -333,7 +333,7 @@ quick: no
 name: parse4.bool.pp1rm0
 tier: B
 define: TOK_BOOL, VB_ARGC=4, VB_PRE=1, VB_RM=0, CLS_WANT=0
-src: options.c, strings.c
+src: options.c
 bound: argc <= 4 (all 1110 vectors of 1..3 words over the 10-token family BOOL), 9-entry table, setting pre-parse=1 remove-args=0, class 0; boolean/integer initial values symbolic
 unwind: 1002
 objbits: 16
@@ -346,7 +346,7 @@ quick: no
 name: parse4.bool.pp1rm1
 tier: B
 define: TOK_BOOL, VB_ARGC=4, VB_PRE=1, VB_RM=1, CLS_WANT=0
-src: options.c, strings.c
+src: options.c
 bound: argc <= 4 (all 1110 vectors of 1..3 words over the 10-token family BOOL), 9-entry table, setting pre-parse=1 remove-args=1, class 0; boolean/integer initial values symbolic
 unwind: 1002
 objbits: 16
@@ -359,7 +359,7 @@ quick: no
 name: parse4.value.pp0rm0
 tier: B
 define: TOK_VALUE, VB_ARGC=4, VB_PRE=0, VB_RM=0, CLS_WANT=0
-src: options.c, strings.c
+src: options.c
 bound: argc <= 4 (all 1110 vectors of 1..3 words over the 10-token family VALUE), 9-entry table, setting pre-parse=0 remove-args=0, class 0; boolean/integer initial values symbolic
 unwind: 1002
 objbits: 16
@@ -372,7 +372,7 @@ quick: no
 name: parse4.value.pp0rm1
 tier: B
 define: TOK_VALUE, VB_ARGC=4, VB_PRE=0, VB_RM=1, CLS_WANT=0
-src: options.c, strings.c
+src: options.c
 bound: argc <= 4 (all 1110 vectors of 1..3 words over the 10-token family VALUE), 9-entry table, setting pre-parse=0 remove-args=1, class 0; boolean/integer initial values symbolic
 unwind: 1002
 objbits: 16
@@ -385,7 +385,7 @@ quick: no
 name: parse4.value.pp1rm0
 tier: B
 define: TOK_VALUE, VB_ARGC=4, VB_PRE=1, VB_RM=0, CLS_WANT=0
-src: options.c, strings.c
+src: options.c
 bound: argc <= 4 (all 1110 vectors of 1..3 words over the 10-token family VALUE), 9-entry table, setting pre-parse=1 remove-args=0, class 0; boolean/integer initial values symbolic
 unwind: 1002
 objbits: 16
@@ -398,7 +398,7 @@ quick: no
 name: parse4.value.pp1rm1
 tier: B
 define: TOK_VALUE, VB_ARGC=4, VB_PRE=1, VB_RM=1, CLS_WANT=0
-src: options.c, strings.c
+src: options.c
 bound: argc <= 4 (all 1110 vectors of 1..3 words over the 10-token family VALUE), 9-entry table, setting pre-parse=1 remove-args=1, class 0; boolean/integer initial values symbolic
 unwind: 1002
 objbits: 16
@@ -411,7 +411,7 @@ quick: no
 name: parse4.list.pp0rm0
 tier: B
 define: TOK_LIST, VB_ARGC=4, VB_PRE=0, VB_RM=0, CLS_WANT=0
-src: options.c, strings.c
+src: options.c
 bound: argc <= 4 (all 1110 vectors of 1..3 words over the 10-token family LIST), 9-entry table, setting pre-parse=0 remove-args=0, class 0; boolean/integer initial values symbolic
 unwind: 1002
 objbits: 16
@@ -424,7 +424,7 @@ quick: no
 name: parse4.list.pp0rm1
 tier: B
 define: TOK_LIST, VB_ARGC=4, VB_PRE=0, VB_RM=1, CLS_WANT=0
-src: options.c, strings.c
+src: options.c
 bound: argc <= 4 (all 1110 vectors of 1..3 words over the 10-token family LIST), 9-entry table, setting pre-parse=0 remove-args=1, class 0; boolean/integer initial values symbolic
 unwind: 1002
 objbits: 16
@@ -437,7 +437,7 @@ quick: no
 name: parse4.list.pp1rm0
 tier: B
 define: TOK_LIST, VB_ARGC=4, VB_PRE=1, VB_RM=0, CLS_WANT=0
-src: options.c, strings.c
+src: options.c
 bound: argc <= 4 (all 1110 vectors of 1..3 words over the 10-token family LIST), 9-entry table, setting pre-parse=1 remove-args=0, class 0; boolean/integer initial values symbolic
 unwind: 1002
 objbits: 16
@@ -450,7 +450,7 @@ quick: no
 name: parse4.list.pp1rm1
 tier: B
 define: TOK_LIST, VB_ARGC=4, VB_PRE=1, VB_RM=1, CLS_WANT=0
-src: options.c, strings.c
+src: options.c
 bound: argc <= 4 (all 1110 vectors of 1..3 words over the 10-token family LIST), 9-entry table, setting pre-parse=1 remove-args=1, class 0; boolean/integer initial values symbolic
 unwind: 1002
 objbits: 16
@@ -470,6 +470,8 @@ quick: no
 #include "src/options.c"
 #undef strtol
 #if defined(TOK_LIST) || defined(TOK_EQE)
+/* the real word utilities, un-annotated (strings.c is not in this unit's `src:` list, so this resolves
+ * to <repo>/src/strings.c; the loop-contract annotations other units inject are not wanted here) */
 # include "src/strings.c"
 #else
 /* units whose token family has no --e=TEXT spelling never reach the word utilities */
@@ -544,6 +546,12 @@ static int r_find_long(const char *name, size_t nl)
         if (strlen((char *) tab[j].long_opt) == nl && !strncasecmp((char *) tab[j].long_opt, name, nl)) return j;
     return -1;
 }
+static int r_known_option_word(const char *w)
+{
+    if (w[0] != '-' || !w[1]) return 0;
+    if (w[1] == '-') { size_t nl = 0; while (w[2 + nl] && w[2 + nl] != '=') nl++; return r_find_long(w + 2, nl) >= 0; }
+    return r_find_short(w[1]) >= 0;
+}
 static int r_pass(int j) { return ((tab[j].flags & SPIFOPT_FLAG_PREPARSE) != 0) == (r_pre != 0); }
 
 /* option j with candidate value val; returns 1 when the next word was consumed as the value */
@@ -578,8 +586,11 @@ static int r_apply(int j, const char *val, int haseq, int from_next, int islong,
         r_stop = 1;                              /* the rest of the line belongs to the list */
         return from_next;
     }
-    /* abstract: value optional */
-    if (val && val[0] == '-') { r_cls |= CLS_UNKNOWN; val = (const char *) 0; from_next = 0; }
+    /* abstract: value optional; a next word that is itself a known option word is not the value */
+    if (val && val[0] == '-') {
+        if (!haseq && r_known_option_word(val)) { val = (const char *) 0; from_next = 0; }
+        else { r_cls |= CLS_UNKNOWN; val = (const char *) 0; from_next = 0; }
+    }
     if (r_pass(j)) { r_abst_calls++; r_abst_last = val; }
     return val ? from_next : 0;
 }
